@@ -19,6 +19,8 @@ struct Case {
     /// sources submitted last that must be REJECTED with and without the bad source (they use
     /// identifiers a failing rule may have leaked: loop variables, the rule's own name)
     probes: Vec<Src>,
+    /// files below the include directory: (relative path, content)
+    files: Vec<(String, String)>,
     kind: String,
     slow_err: bool, lint: bool, ignore_mod: bool,
     /// number of entries the bad source must add to errors(): [min, max]
@@ -167,6 +169,11 @@ fn gen_bad(rng: &mut Rng, ns: usize, id: usize, lint: bool, slow_err: bool, igno
         // a rule using an ignored module is skipped, listed in ignored_rules(), not an error
         _ => (format!("{} {{ {}{}condition: {}ghost_module.some_field == {} }}", h, meta, strings(""), cond_pre, id), "uses-ignored-module", (0, 0), 1, false),
     };
+    // a second rule with a syntax error next to the rule with the semantic error: both must be recorded
+    let (text, kindname, exp_errors) = if exp_err && kind != 0 && kind != 10 && rng.chance(1, 4) {
+        (format!("{} rule syn{} {{ condition: true and and }}", text, id), format!("{}+syntax-error-in-next-rule", kindname), (exp_errors.0 + 1, exp_errors.1 + 50))
+    } else { (text, kindname.to_string(), exp_errors) };
+    let kindname = kindname.as_str();
     let text = if suppress {
         let codes = "text_as_hex, slow_pattern, invariant_expr, non_bool_expr, consecutive_jumps, redundant_case_modifier, unsatisfiable_expr";
         if rng.chance(1, 2) { format!("{} // suppress: {}", text, codes) } else { format!("// suppress: {}\n{}", codes, text) }
@@ -178,8 +185,20 @@ fn gen_bad(rng: &mut Rng, ns: usize, id: usize, lint: bool, slow_err: bool, igno
 
 struct Compiled { rules: Option<yara_x::Rules>, add_results: Vec<bool>, n_errors: usize, n_ignored: usize, build_panic: bool, warnings: Vec<String> }
 
+static DIR_COUNTER: std::sync::atomic::AtomicUsize = std::sync::atomic::AtomicUsize::new(0);
+
 fn compile(srcs: &[Src], case: &Case, bad_idx: Option<usize>) -> Compiled {
     let mut c = yara_x::Compiler::new();
+    // the include directory of the case, private to this compilation
+    let dir = std::env::temp_dir().join(format!("c06_{}_{}", std::process::id(), DIR_COUNTER.fetch_add(1, std::sync::atomic::Ordering::SeqCst)));
+    if !case.files.is_empty() {
+        for (rel, content) in &case.files {
+            let p = dir.join("inc").join(rel);
+            std::fs::create_dir_all(p.parent().unwrap()).unwrap();
+            std::fs::write(&p, content).unwrap();
+        }
+        c.add_include_dir(dir.join("inc"));
+    }
     c.error_on_slow_pattern(case.slow_err);
     c.define_global("gs0", "alpha").unwrap();
     c.define_global("gs1", "bravo").unwrap();
@@ -199,7 +218,9 @@ fn compile(srcs: &[Src], case: &Case, bad_idx: Option<usize>) -> Compiled {
         let r = catch(AssertUnwindSafe(|| c.add_source(yara_x::SourceCode::from(s.text.as_str()).with_origin(origin.as_str())).is_ok()));
         add_results.push(r.unwrap_or(false));
     }
-    let warnings: Vec<String> = c.warnings().iter().map(|w| w.to_string()).filter(|w| !w.contains("BADSRC.yar")).collect();
+    let tmp = dir.to_string_lossy().to_string();
+    let warnings: Vec<String> = c.warnings().iter().map(|w| w.to_string().replace(tmp.as_str(), "<dir>")).filter(|w| !w.contains("BADSRC.yar") && !w.contains("a/bad.yar")).collect();
+    if !case.files.is_empty() { let _ = std::fs::remove_dir_all(&dir); }
     let n_errors = c.errors().len();
     let n_ignored = c.ignored_rules().count();
     match catch(AssertUnwindSafe(move || c.build())) {
@@ -276,12 +297,13 @@ fn srcs_from(v: &serde_json::Value) -> Vec<Src> {
     v.as_array().unwrap().iter().map(|x| Src { ns: x[0].as_u64().unwrap() as usize, text: x[1].as_str().unwrap().to_string() }).collect()
 }
 fn case_json(c: &Case, seed: u64) -> serde_json::Value {
-    serde_json::json!({"probes": srcs_json(&c.probes), "pre": srcs_json(&c.pre), "bad": srcs_json(&[c.bad.clone()]), "post": srcs_json(&c.post), "kind": c.kind,
+    serde_json::json!({"files": c.files.iter().map(|(a, b)| serde_json::json!([a, b])).collect::<Vec<_>>(), "probes": srcs_json(&c.probes), "pre": srcs_json(&c.pre), "bad": srcs_json(&[c.bad.clone()]), "post": srcs_json(&c.post), "kind": c.kind,
         "slow": c.slow_err, "lint": c.lint, "ignore_mod": c.ignore_mod, "exp_errors": [c.exp_errors.0, c.exp_errors.1],
         "exp_ignored": c.exp_ignored, "exp_err": c.exp_err, "seed": seed})
 }
 fn case_from(v: &serde_json::Value) -> Case {
-    Case { probes: srcs_from(&v["probes"]), pre: srcs_from(&v["pre"]), bad: srcs_from(&v["bad"])[0].clone(), post: srcs_from(&v["post"]), kind: v["kind"].as_str().unwrap().to_string(),
+    Case { files: v["files"].as_array().map(|a| a.iter().map(|x| (x[0].as_str().unwrap().to_string(), x[1].as_str().unwrap().to_string())).collect()).unwrap_or_default(),
+           probes: srcs_from(&v["probes"]), pre: srcs_from(&v["pre"]), bad: srcs_from(&v["bad"])[0].clone(), post: srcs_from(&v["post"]), kind: v["kind"].as_str().unwrap().to_string(),
            slow_err: v["slow"].as_bool().unwrap(), lint: v["lint"].as_bool().unwrap(), ignore_mod: v["ignore_mod"].as_bool().unwrap(),
            exp_errors: (v["exp_errors"][0].as_u64().unwrap() as usize, v["exp_errors"][1].as_u64().unwrap() as usize),
            exp_ignored: v["exp_ignored"].as_u64().unwrap() as usize, exp_err: v["exp_err"].as_bool().unwrap() }
@@ -371,7 +393,7 @@ fn run_in_child(case: &Case, seed: u64) -> Option<Outcome> {
 
 fn corpus() -> Vec<Case> {
     let s = |ns: usize, t: &str| Src { ns, text: t.to_string() };
-    let base = |pre: Vec<Src>, bad: Src, post: Vec<Src>, kind: &str| Case { pre, bad, post, probes: vec![], kind: kind.to_string(), slow_err: false, lint: false,
+    let base = |pre: Vec<Src>, bad: Src, post: Vec<Src>, kind: &str| Case { pre, bad, post, probes: vec![], files: vec![], kind: kind.to_string(), slow_err: false, lint: false,
         ignore_mod: false, exp_errors: (1, 1), exp_ignored: 1, exp_err: true };
     let mut v = vec![
         // (fixed) anchored literal registered, then a regexp of the same rule fails
@@ -444,7 +466,23 @@ fn gen_case(rng: &mut Rng) -> Case {
         let (h, meta) = header(lint, "probe1");
         probes.push(Src { ns, text: format!("{} {{ {}condition: {} or filesize > 0 }}", h, meta, bad_ident) });
     }
-    Case { pre, bad, post: post.into_iter().map(|p| p.0).collect(), probes, kind, slow_err, lint, ignore_mod, exp_errors, exp_ignored, exp_err }
+    // the failing rule lives in an included file; a later source includes a file whose name also exists
+    // next to the failed file: relative includes are looked up next to the file on top of the include stack
+    let mut files = vec![];
+    let mut bad = bad; let mut kind = kind;
+    let mut post: Vec<(Src, String)> = post;
+    if rng.chance(1, 5) {
+        let (h1, m1) = header(lint, "from_include_dir");
+        let (h2, m2) = header(lint, "from_subdir");
+        files.push(("common.yar".to_string(), format!("{} {{ {}condition: true }}", h1, m1)));
+        files.push(("a/common.yar".to_string(), format!("{} {{ {}condition: filesize > 0 }}", h2, m2)));
+        files.push(("a/bad.yar".to_string(), bad.text.clone()));
+        bad = Src { ns: bad.ns, text: "include \"a/bad.yar\"".to_string() };
+        kind = format!("{}+in-included-file", kind);
+        if let Some(p) = post.last_mut() { p.0.text = format!("include \"common.yar\"\n{}", p.0.text); }
+        else { post.push((Src { ns, text: "include \"common.yar\"".to_string() }, "inc_only".to_string())); }
+    }
+    Case { pre, bad, post: post.into_iter().map(|p| p.0).collect(), probes, files, kind, slow_err, lint, ignore_mod, exp_errors, exp_ignored, exp_err }
 }
 
 pub fn run(args: &[String]) -> i32 {
@@ -481,6 +519,7 @@ pub fn run(args: &[String]) -> i32 {
         if !o.warnings_same { stats.inc("warnings_differ"); }
         if o.n_warnings > 0 { stats.inc("good_sources_emit_warnings"); }
         if !case.probes.is_empty() { stats.inc("with_probe_source"); }
+        if !case.files.is_empty() { stats.inc("failing_rule_in_included_file"); }
         if !recorded { stats.inc("errors_not_recorded"); }
         if !ignored_ok { stats.inc("ignored_rules_mismatch"); }
         let coq_case = format!("mkCase {} {} {} {} {} {} {}",
